@@ -45,6 +45,10 @@ package coverage
 //@   requires covValid(table) && len(table) <= 65535
 //@   may_panic
 //@   ensures len(res) >= 4 && fresh(res)
+// format 1 output in terms of the table: glyph g is stored at the position its coverage index gives, in increasing order
+//@   ensures (be16(res, 0) == 1 || be16(res, 0) == 2) && (be16(res, 0) == 1 ==> len(res) == 4 + 2*len(table) && be16(res, 2) == len(table))
+//@   ensures be16(res, 0) == 1 ==> forall g uint16 :: has(table, g) ==> be16(res, 4 + 2*table[g]) == g
+//@   ensures be16(res, 0) == 1 ==> forall k int :: 1 <= k && k < len(table) ==> cov1gidB(res, k-1) < cov1gidB(res, k)
 //@   return_assert len(res) == ite(format1Length <= format2Length, format1Length, format2Length)
 //@   return_assert format1Length <= format2Length ==> be16(res, 0) == 1 && be16(res, 2) == len(rev) && forall i int :: 0 <= i && i < len(rev) ==> be16(res, 4 + 2*i) == rev[i]
 //@   return_assert format1Length > format2Length ==> be16(res, 0) == 2 && be16(res, 2) == nranges(rev, len(rev))
@@ -75,24 +79,38 @@ package coverage
 //@     invariant 0 <= pos && pos <= 65536*i + (gid - startGlyphID)
 //@     decreases endGlyphID + 1 - gid
 
+// glyph number k of a format 1 coverage table stored at pos in the byte sequence f
+//@ opaque spec cov1gid(f seq, pos int, k int) int = be16(f, pos + 4 + 2*k)
+//@ opaque spec cov1gidB(b []byte, k int) int = be16(b, 4 + 2*k)
+
 //@ func Read(p *parser.Parser, pos int64) (table Table, err error)   props: C02 C18 C08
 //@   requires parser.inv(p) && pos >= 0
 //@   ensures err == nil ==> table != nil && fresh(table) && covValid(table) && len(table) <= 65536
 //@   ensures err == nil ==> parser.inv(p)
+//@   any i0 int
+//@   let F = file(p.r); fmt1 = be16(file(p.r), old(pos)) == 1; n1 = be16(file(p.r), old(pos) + 2)
+// format 1 (glyph array): glyph number i0 of the array gets coverage index i0, and nothing else is covered
+//@   ensures err == nil && fmt1 ==> len(table) == n1 && (0 <= i0 && i0 < n1 ==> has(table, be16(F, pos + 4 + 2*i0)) && table[be16(F, pos + 4 + 2*i0)] == i0)
+// a well-formed format 1 table is accepted: strictly increasing glyph IDs, all inside the file, no reader fault
+//@   ensures old(parser.inv(p)) && fmt1 && n1 >= 0 && pos + 4 + 2*n1 <= fsize(p.r) && faults(p.r) == old(faults(p.r)) && (forall k int :: 1 <= k && k < n1 ==> cov1gid(F, pos, k-1) < cov1gid(F, pos, k)) ==> err == nil
 //@   ensures p.r == old(p.r)
 //@   ensures faults(p.r) > old(faults(p.r)) ==> err != nil
 //@   modifies p.*, allelems(byte), rpos(p.r), faults(p.r)
 //@   loop 0
 //@     invariant parser.inv(p) && 0 <= i && i <= glyphCount && table != nil && fresh(table) && faults(p.r) == old(faults(p.r)) && len(table) == i && -1 <= prev && prev <= 65535
 //@     invariant forall g uint16 :: has(table, g) ==> 0 <= table[g] && table[g] < i && g <= prev
+//@     invariant fmt1 && glyphCount == n1 && parser.vpos(p) == pos + 4 + 2*i && file(p.r) == old(file(p.r)) && p.r == old(p.r) && (i == 0 ==> prev == -1) && (i > 0 ==> prev == cov1gid(F, pos, i-1)) && (i < n1 ==> cov1gid(F, pos, i) == be16(F, pos + 4 + 2*i))
+//@     invariant 0 <= i0 && i0 < i ==> has(table, be16(F, pos + 4 + 2*i0)) && table[be16(F, pos + 4 + 2*i0)] == i0
 //@     invariant forall g1 uint16 :: forall g2 uint16 :: has(table, g1) && has(table, g2) && g1 < g2 ==> table[g1] < table[g2]
 //@     decreases glyphCount - i
 //@   loop 1
+//@     invariant !fmt1 && p.r == old(p.r)
 //@     invariant parser.inv(p) && 0 <= i && i <= rangeCount && table != nil && fresh(table) && faults(p.r) == old(faults(p.r)) && len(table) == pos && 0 <= pos && pos <= prev + 1 && -1 <= prev && prev <= 65535
 //@     invariant forall g uint16 :: has(table, g) ==> 0 <= table[g] && table[g] < pos && g <= prev
 //@     invariant forall g1 uint16 :: forall g2 uint16 :: has(table, g1) && has(table, g2) && g1 < g2 ==> table[g1] < table[g2]
 //@     decreases rangeCount - i
 //@   loop 2
+//@     invariant !fmt1 && p.r == old(p.r)
 //@     invariant startGlyphID <= gid && gid <= endGlyphID + 1 && endGlyphID <= 65535 && prev < startGlyphID && table != nil && fresh(table) && 0 <= i && i < rangeCount
 //@     invariant len(table) == pos && 0 <= pos && pos <= gid && -1 <= prev
 //@     invariant forall g uint16 :: has(table, g) ==> 0 <= table[g] && table[g] < pos && g < gid
